@@ -282,7 +282,7 @@ def zero_allowed(typ):
 class AstKindProp(Prop):
     kind = "class"
     model_kind = "class"
-    quick_cases = 700
+    quick_cases = 2000
     thorough_cases = 20000
     rule = (
         "case = (IR of the property domain, emitter options). 65% of the IRs have every entry typed and described "
@@ -478,7 +478,10 @@ class AstKindProp(Prop):
                 doc = [n for n, p in c["ir"]["params"] if "doc" in p]
                 first = doc + [n for n in names if n not in doc]
                 kw = [n for n in names if n.endswith("kwargs")]
-                allowed = [first, [n for n in first if n not in kw] + kw]
+                k = self.kind_of(c)
+                last = [n for n in first if n not in kw] + kw
+                # (parse.function pops a documented **kwargs and re-appends it after the merge; the class kind leaves it)
+                allowed = [last] if k in ("function", "method") else ([first] if k == "class" else [first, last])
                 if got not in allowed:
                     return None
         return covered_by(ex, diffs)
